@@ -28,6 +28,12 @@ BODIES = [
     "B=INSTR(\"hello\",\"l\")+LEN(T$)", "X%=X%+1:IF X%>100 THEN X%=0", "D#=Q/3", 'IF Q<0 THEN PRINT "never"', "B=ABS(-Q)+SGN(Q)+INT(Q/2)", "TRON:TROFF",
     "GOSUB 900:GOSUB 900", "IF Q>5 THEN GOSUB 900 ELSE GOSUB 900", "IF Q>5 THEN ON 3 GOSUB 900 ELSE ON 1 GOSUB 900", "A=VAL(\"12\")+ASC(\"A\")",
     "ON Q-3*INT(Q/3) GOSUB 900,900", "FOR J=1 TO 2:FOR K=1 TO 2:NEXT K,J", "FOR J=1 TO 2:GOSUB 900:NEXT", "B$=STRING$(3,\"x\")+SPC(2)", "POKE=1", "READ D:RESTORE 910",
+    # every built-in function at each number of arguments it takes: a call leaves exactly its result on the stack
+    "B=ABS(Q)+ATN(Q)+CDBL(Q)+CINT(3.5)+COS(Q)+CSNG(Q)+EXP(1)+FIX(Q/3)+INT(Q/3)+LOG(Q)+SGN(Q)+SIN(Q)+SQR(Q)+TAN(1)",
+    "B=POS(0):B=POS:B=POS(Q)+POS(1)", "B=RND:B=RND(1)+RND(0):B=RND(-1)", 'B=INSTR("hello","l")+INSTR(2,"hello","l")',
+    'T$=MID$("hello",2)+MID$("hello",2,2)+LEFT$("ab",1)+RIGHT$("ab",1)', 'T$=CHR$(65)+HEX$(255)+OCT$(8)+STR$(Q)+STRING$(2,65)+STRING$(2,"x")',
+    'B=ASC("A")+LEN("abc")+VAL("1.5")', "T$=LEFT$(DATE$,0)+LEFT$(TIME$,0)", 'IF Q=5 THEN PRINT TAB(3);SPC(2);"."',
+    "B=FNA(POS(0))+FNB(POS(1),RND(1))",
     # subroutines left through RETURN with loops still open: the frames above the return address go with it
     "GOSUB 920", "GOSUB 920:GOSUB 940", "ON 1 GOSUB 940", "IF Q>0 THEN GOSUB 920 ELSE GOSUB 940",
 ]
